@@ -30,7 +30,8 @@ RULE = ("random call histories of 1-6 calls after an initial fit, over {update(u
         "update (known finding); forecasters: leaf double, NaiveForecaster(last/mean) [in Coq], "
         "ensemble / multiplexer / pipeline / stacking composites of these [in Coq when the horizon is "
         "given at fit], pipelines over the real Detrender, PolynomialTrendForecaster, "
-        "ExponentialSmoothing, ThetaForecaster [oracle only]. non-trivial = at least two calls succeeded "
+        "ExponentialSmoothing (flat, additive trend, trend + seasonal), AutoETS(trend), "
+        "ThetaForecaster [oracle only]. non-trivial = at least two calls succeeded "
         "and at least one carried data; distinct = distinct canonical JSON case")
 TRUSTED = [
     "the translators translator/sktimebase_c10.py + translator/fcskel.py (fail closed) and the "
@@ -50,6 +51,11 @@ MODELLED = [
     "override), _predict_moving_cutoff with _detached_cutoff inlined at the `with`, update_predict (base "
     "class and window-forecaster override, incl. the defaults of SlidingWindowSplitter read from "
     "_split.py); exogenous X specialised to None, return_pred_int to False",
+    "also regenerated (translator/smadapter_c10.py, vocabulary coq/C10/SmLib.v): "
+    "_StatsModelsAdapter._predict over an abstract wrapped statsmodels results object (its value at "
+    "every zero-based position of its training index); ExponentialSmoothing (flat / trend / trend + "
+    "seasonal) and AutoETS(trend) histories are run by the oracle only, which compares predict with the "
+    "results object's own predict(start, end) positioned by the cutoff",
     "also regenerated (translator/transupdate_c10.py): Detrender.update over an abstract nested trend "
     "forecaster and (Conditional)Deseasonalizer.update over an abstract fitted state; pipelines over the "
     "real Detrender / Deseasonalizer are run by the oracle only (nested trend coefficients and "
@@ -81,10 +87,12 @@ NOT_RUNNABLE = ["fbprophet adapter (_update_X caller): fbprophet is not installe
 
 def translate(repo):
     """regenerate build/coq/C10/Site.v from sktime/forecasting/base/_sktime.py (fail closed)"""
-    from translator import sktimebase_c10, transupdate_c10
+    from translator import sktimebase_c10, smadapter_c10, transupdate_c10
     files = dict(sktimebase_c10.translate(repo))
     # + the update methods of the series transformers C10 anchors (Detrender, Deseasonalizer)
     files["C10/Site.v"] += transupdate_c10.translate(repo)
+    # + _StatsModelsAdapter._predict (forecasts positioned by the cutoff)
+    files["C10/Site.v"] += smadapter_c10.translate(repo)
     return files
 
 
@@ -98,6 +106,15 @@ def _build(spec):
     if t == "ses":
         from sktime.forecasting.exp_smoothing import ExponentialSmoothing
         return ExponentialSmoothing()
+    if t == "holt":        # statsmodels-backed, forecast NOT flat in the horizon (additive trend)
+        from sktime.forecasting.exp_smoothing import ExponentialSmoothing
+        return ExponentialSmoothing(trend="add")
+    if t == "holts":       # ... trend and additive seasonality
+        from sktime.forecasting.exp_smoothing import ExponentialSmoothing
+        return ExponentialSmoothing(trend="add", seasonal="add", sp=spec["sp"])
+    if t == "ets":
+        from sktime.forecasting.ets import AutoETS
+        return AutoETS(trend="add")
     if t == "theta":
         from sktime.forecasting.theta import ThetaForecaster
         return ThetaForecaster()
@@ -107,7 +124,7 @@ def _build(spec):
 def _refits(spec):
     """does update(update_params=True) amount to a refit on the remembered data?"""
     t = spec["t"]
-    if t in ("rec", "naive", "poly", "ses"):
+    if t in ("rec", "naive", "poly", "ses", "holt", "holts", "ets"):
         return True
     if t in ("ens", "mux"):
         return all(_refits(m) for m in spec["ms"])
@@ -191,6 +208,22 @@ _ERRS = (ValueError, KeyError, IndexError, TypeError, NotImplementedError)
 PROBE_FH = [1, 2]
 
 
+_SM = ("ses", "holt", "holts", "ets")
+
+
+def _sm_ref(f):
+    """what the wrapped statsmodels results object itself says for PROBE_FH steps after the
+    forecaster's CUTOFF: predict(start, end) in its own zero-based positions (independent of
+    _StatsModelsAdapter._predict)"""
+    try:
+        i0, c = int(f._y.index[0]), int(f.cutoff)
+        r = f._fitted_forecaster.predict(c + PROBE_FH[0] - i0, c + PROBE_FH[-1] - i0)
+        vals = list(getattr(r, "values", r))
+        return [[c + h, float_ratio(float(vals[h - PROBE_FH[0]]))] for h in PROBE_FH]
+    except Exception as e:
+        return "sm-ref-failed: %s" % type(e).__name__
+
+
 def _probe(f):
     import copy
     try:
@@ -212,6 +245,8 @@ def run_impl(case):
         k = o[0]
         st = {}
         before = copy.deepcopy(f)
+        if spec["t"] in _SM and case["fh0"] is not None:
+            st["sm_probe_before"] = _probe(before)
         st["cut_before"] = int(f.cutoff)
         st["par_before"] = _params(f)
         try:
@@ -242,6 +277,9 @@ def run_impl(case):
         st["fh"] = _fh_of(f)
         st["par"] = _params(f)
         # ---- facts for the oracle, from the real classes ----
+        if st["ret"] != "err" and spec["t"] in _SM:
+            st["sm_probe"] = _probe(f)
+            st["sm_ref"] = _sm_ref(f)
         if st["ret"] != "err":
             if k in ("update", "ups") and o[-1]:
                 # a fresh forecaster fitted on everything remembered so far ("y1 followed by y2")
@@ -385,6 +423,22 @@ def oracle(case, out):
         if k == "updpred" and s["cut"] != s["cut_before"]:
             return "update-predict-did-not-restore-cutoff: %s: before %d after %d" % (
                 what, s["cut_before"], s["cut"])
+        # -- statsmodels-backed forecasters: forecasts are those of the fitted model extrapolated
+        #    from the forecaster's CUTOFF (not from the end of the data it was last fitted on)
+        if "sm_probe" in s:
+            if isinstance(s["sm_probe"], str) or isinstance(s["sm_ref"], str):
+                return "statsmodels-probe-failed: %s: %s / %s" % (what, s["sm_probe"], s["sm_ref"])
+            if not c09._ser_close(s["sm_probe"], s["sm_ref"]):
+                return ("forecast-not-positioned-by-cutoff: %s: cutoff %d, forecaster predicts %s, its "
+                        "fitted model extrapolated from the cutoff gives %s" % (
+                            what, s["cut"], c09._show_ser(s["sm_probe"]), c09._show_ser(s["sm_ref"])))
+            # update_predict without parameter updating: cutoff and parameters are what they were,
+            # so predict() afterwards is predict() before
+            if k == "updpred" and not o[-1] and not isinstance(s.get("sm_probe_before"), (str, type(None))):
+                if not c09._ser_close(s["sm_probe"], s["sm_probe_before"]):
+                    return ("predict-after-update-predict-differs: %s (update_params=False): before %s, "
+                            "after %s" % (what, c09._show_ser(s["sm_probe_before"]),
+                                          c09._show_ser(s["sm_probe"])))
         # -- refit on update == fresh fit on the union
         if k in ("update", "ups") and o[-1] and _refits(spec):
             if isinstance(s.get("probe"), str) or isinstance(s.get("fresh"), str):
@@ -624,8 +678,9 @@ def gen_cases(rng, tier):
         c["kind"] = "leaf"
         cases.append(c)
     # fit(y1); update(y2); predict - the sentence of the property, on every forecaster
-    others = [{"t": "poly", "degree": 1}, {"t": "poly", "degree": 2}, {"t": "ses"}, {"t": "theta"}]
-    for i in range(60 if tier == "quick" else 600):
+    others = [{"t": "poly", "degree": 1}, {"t": "poly", "degree": 2}, {"t": "ses"}, {"t": "theta"},
+              {"t": "holt"}, {"t": "holts", "sp": 2}, {"t": "ets"}]
+    for i in range(84 if tier == "quick" else 840):
         spec = others[i % len(others)]
         c = _gen_history(rng, spec, tier, fh_mode="fit", max_ops=4, allow_fit=False,
                          allow_default_cv=False)
@@ -634,6 +689,13 @@ def gen_cases(rng, tier):
         for o in c["ops"]:
             if o[0] != "predict":
                 o[2] = [v + 1 for v in o[2]]
+        if spec["t"] in ("holt", "holts", "ets"):
+            # trend / seasonal components need a longer first series
+            extra = [v + 1 for v in c09._gen_values(rng, 6)]
+            c["y0"] = c["y0"] + extra
+            for o in c["ops"]:
+                if o[0] != "predict":
+                    o[1] += len(extra)
         cases.append(c)
     for i in range(90 if tier == "quick" else 900):
         tags = c09._Tags()
